@@ -71,7 +71,7 @@ PROPS = {
         "native": [
             {"name": "type_universe_distinct_and_stable", "bin": "replay_c14", "crate": "replay", "twice": True,
              "pre": "python3 lib/gen_c14_universe.py out/aux/c14_universe.rs", "tiers": ("quick", "thorough"),
-             "bound": "6478 types of a generated constructor-closed universe (EVERY leaf type that has an Identifiable impl incl. the smallvec/bitvec features, all unary constructors over the main leaves, every `?Sized`-accepting constructor over every unsized leaf, Cow over borrowed AND owned forms, nestings to depth 3, binary constructors in both argument orders, maps and sets under two hasher types, permuted tuples, array lengths, derived user types): ids evaluated on the real crate, pairwise distinct, identical in two separate processes; plus a crafted family of type NAMES fed to from_unique_type_name: names of every length 1..72 changed in one byte (hand-picked pairs and every single-bit pair) or by swapping adjacent bytes at every position must get distinct ids"},
+             "bound": "6865 types of a generated constructor-closed universe (EVERY leaf type that has an Identifiable impl incl. the smallvec/bitvec features, all unary constructors over the main leaves, every `?Sized`-accepting constructor over every unsized leaf, Cow over borrowed AND owned forms, nestings to depth 3, binary constructors in both argument orders, maps and sets under two hasher types, permuted tuples, array lengths, derived user types): ids evaluated on the real crate, pairwise distinct, identical in two separate processes; plus a crafted family of type NAMES fed to from_unique_type_name: names of every length 1..72 changed in one byte (hand-picked pairs and every single-bit pair) or by swapping adjacent bytes at every position must get distinct ids"},
             {"name": "store_addressing_through_both_write_paths", "bin": "replay_c11", "crate": "replay_db", "release": False, "tiers": ("quick", "thorough"), "thorough_seeds": 2,
              "bound": "the C11 real-backend run (direct and serialization-buffer write paths, first touch of a column after a reopen, several operations on one slot in one buffer, empty encodings): every operation must land in the column of its own column type"},
             {"name": "store_slots_by_type_id", "bin": "replay_c14_store", "crate": "replay_db", "release": False, "tiers": ("quick", "thorough"), "thorough_seeds": 1,
